@@ -8,6 +8,8 @@ use crate::core::{Local, V3};
 
 impl CipherText<V3, Local> {
     pub(crate) fn from(payload: &[u8], encryption_key: &EncryptionKey<V3, Local>) -> Self {
+        #[cfg(rusty_paseto_verif)]
+        crate::verif::emit("keystream:v3");
         let key = GenericArray::from_slice(encryption_key.as_ref());
         let nonce = GenericArray::from_slice(encryption_key.counter_nonce());
         let mut cipher = Aes256Ctr::new(key, nonce);
